@@ -129,11 +129,5 @@ def r3(ctx, R):
         var = a.targets[0].id if isinstance(a, ast.Assign) and isinstance(a.targets[0], ast.Name) else None
         c = next(c for n, c in f.calls("self._notify_message_received"))
         args = [f.expand_text(x, nots[0]) for x in c.args]
-        srcs = set()
-        for x in c.args:
-            if isinstance(x, ast.Name):
-                u = f.defs_reaching(x.id, nots[0])
-                for d in u:
-                    if d.kind == "stmt" and isinstance(d.ast, ast.Assign) and dotted(d.ast.value) == var:
-                        srcs.add(x.id)
-        ctx.check(len(c.args) == 2 and len(srcs) == 2, R, "_read:delivers-what-was-read", m, c, f"header and message delivered are the two components unpacked from the result of this read ({var})", ", ".join(args))
+        want = ["(await self._read_one_message())[0]", "(await self._read_one_message())[1]"]
+        ctx.check(args == want and not c.keywords, R, "_read:delivers-what-was-read", m, c, f"header and message delivered are the two components unpacked from the result of this read ({var})", ", ".join(args))
